@@ -16,6 +16,7 @@ import Anko.Model.EnvApi
 import Anko.Model.Literal
 import Anko.Model.PrecTable
 import Anko.Model.Scanner
+import Anko.Model.Chan
 
 open Anko
 
@@ -143,8 +144,64 @@ def handleLex (h : String) : String :=
         | some (.fuel, _) => "model-fuel"
       " ".intercalate (toks.map showScanTok ++ [tail])
 
+def showChanRes : Chan.Res → String
+  | .done => "done"
+  | .val v => s!"val:{v}"
+  | .closedEmpty => "closed-empty"
+  | .block => "block"
+  | .err m => "err:" ++ m.replace " " "_"
+
+def decodeChanOp : Sexp → Option Chan.Op
+  | .list [.atom "send", .atom v] => v.toInt?.map Chan.Op.send
+  | .list [.atom "recv"] => some .recv
+  | .list [.atom "close"] => some .close
+  | _ => none
+
+def handleChanHist (args : List Sexp) : String :=
+  match args with
+  | .atom cap :: ops =>
+    match cap.toNat?, ops.mapM decodeChanOp with
+    | some c, some os =>
+      let r := os.foldl (fun (acc : Chan.Hist × List String) op =>
+        let st := acc.1.step op
+        (st.1, acc.2 ++ [showChanRes st.2])) (Chan.Hist.init c, [])
+      " ".intercalate r.2
+    | _, _ => "bad-args"
+  | _ => "bad-args"
+
+/-- run a pipeline under a pseudo-random schedule (LCG on `seed`) until terminal or out of steps -/
+def pipeSchedule (k : Nat) : Nat → Nat → List Chan.Move
+  | 0, _ => []
+  | n + 1, seed =>
+    let s1 := (seed * 6364136223846793005 + 1442695040888963407) % 18446744073709551616
+    let r := (s1 / 65536) % (3 * k + 2)
+    let m : Chan.Move := if r == 0 then .produce else if r == 1 then .produceClose
+      else match (r - 2) % 3 with
+        | 0 => .recv ((r - 2) / 3)
+        | 1 => .send ((r - 2) / 3)
+        | _ => .finish ((r - 2) / 3)
+    m :: pipeSchedule k n s1
+
+def handlePipe (args : List Sexp) : String :=
+  match args with
+  | [.list items, .list stages, .atom seed] =>
+    let its := items.filterMap (fun x => match x with | .atom a => a.toInt? | _ => none)
+    let sts := stages.filterMap (fun x => match x with
+      | .list [.atom a, .atom b, .atom c] => (match a.toInt?, b.toInt?, c.toNat? with
+        | some a, some b, some c => some ((fun (v : Int) => a * v + b), c)
+        | _, _, _ => none)
+      | _ => none)
+    match seed.toNat? with
+    | some sd =>
+      let p := (Chan.Pipe.init its sts).run (pipeSchedule sts.length 200000 sd)
+      s!"terminal={p.terminal} out={p.out}"
+    | none => "bad-args"
+  | _ => "bad-args"
+
 def handleOps (cmd : String) (args : List Sexp) : String :=
   match cmd, args with
+  | "chanhist", args => handleChanHist args
+  | "pipe", args => handlePipe args
   | "lex", [] => handleLex ""
   | "lex", [.atom h] => handleLex h
   | "prmin", [t] => (match decodePTree t with
